@@ -143,6 +143,7 @@ func c02Exec(in c02Input) (c02Obs, []fakedocker.LogCall) {
 		params.Step = time.Second
 	}
 	switch in.Shape {
+	case "log-nostep": // a range log query without a step: still a range query over [start, end]
 	case "log":
 		params.Step = time.Second
 	case "instant-log":
@@ -250,7 +251,7 @@ func c02Check(r *vkit.Run, in c02Input) {
 	needStart, needEnd := in.StartNS, in.EndNS
 	exactSince := false
 	switch in.Shape {
-	case "log":
+	case "log", "log-nostep":
 		exactSince = true
 	case "instant-log":
 		needEnd = in.StartNS
@@ -323,6 +324,21 @@ func c02Check(r *vkit.Run, in c02Input) {
 				refKeys = append(refKeys, k)
 			}
 			sort.Strings(refKeys)
+			for k, hv := range have {
+				if _, ok := ref[k]; !ok && k != "msg" {
+					// (reported for the first such label in sorted order)
+					extra := []string{}
+					for k2 := range have {
+						if _, ok2 := ref[k2]; !ok2 && k2 != "msg" {
+							extra = append(extra, k2+"="+have[k2])
+						}
+					}
+					sort.Strings(extra)
+					_ = hv
+					fail(fmt.Sprintf("line %q carries %s, a label its container does not have", line, strings.Join(extra, ", ")), "")
+					return
+				}
+			}
 			for _, k := range refKeys {
 				v := ref[k]
 				if hv, present := have[k]; !present || hv != v {
@@ -492,6 +508,9 @@ func c02Run(r *vkit.Run) {
 				one(c02Input{Ctrs: inv, Matchers: []c02Matcher{all}, Shape: "log", StartNS: te[0], EndNS: te[1], StepMS: step})
 				one(c02Input{Ctrs: inv, Matchers: []c02Matcher{all}, Shape: "count", StartNS: te[0], EndNS: te[1], StepMS: step})
 			}
+		}
+		for _, te := range [][2]int64{{100 * sec, 200 * sec}, {1500000000, 9 * sec}} {
+			one(c02Input{Ctrs: inv, Matchers: []c02Matcher{all}, Shape: "log-nostep", StartNS: te[0], EndNS: te[1]})
 		}
 		for _, lb := range []int{60, 5} {
 			one(c02Input{Ctrs: inv, Matchers: []c02Matcher{all}, Shape: "instant-log", StartNS: 100 * sec, EndNS: 100 * sec, LookbackS: lb})
